@@ -338,6 +338,12 @@ func verifRunSchedule(out *verifOut, si, n, npollers int, rng *verifRng, sizes [
 			<-barrier
 			req, _ := http.NewRequestWithContext(cctx, "POST", srv.URL+"/c/"+pl.tok+"?q="+pl.tok, bytes.NewReader(verifBody(pl.tok, pl.reqSize)))
 			req.Header.Set("X-Verif-Token", pl.tok)
+			if si%5 == 2 {
+				// clients that send the request-ID header themselves (an upstream hop, a retrying client
+				// library or an attacker): the same values from every client of the schedule.  (A request
+				// carrying the backend-ID header is an agent request by definition and is not used here.)
+				req.Header.Set("X-Inverting-Proxy-Request-ID", fmt.Sprintf("client-chosen-%d", c%2))
+			}
 			resp, err := cl.Do(req)
 			if err != nil {
 				res.Err = "do: " + err.Error()
